@@ -40,6 +40,7 @@ type Op struct {
 	Key *string `json:"key,omitempty"` // integer key (decimal, exactly representable) ...
 	Ks  string  `json:"ks,omitempty"`  // ... or a canonical numeric string that is no integer index
 	Le  bool    `json:"le,omitempty"`
+	NoLe bool   `json:"nole,omitempty"` // DataView get/set: omit the littleEndian argument
 	I   int     `json:"i,omitempty"` // GoWrite index
 	X   int     `json:"x,omitempty"` // GoWrite byte
 }
@@ -71,7 +72,7 @@ var esize = []int{1, 1, 1, 2, 2, 4, 4, 4, 8, 8, 8}
 func isBig(k int) bool { return k >= 9 }
 
 const guard = 16
-const failTerm = "mkCase [] [] [mkO XPanic false 0%Z] 0%Z"
+const failTerm = "(mkCase [] [] [mkO XPanic false 0 0] 0)%Z"
 
 // ---------------------------------------------------------------- execution environment
 
@@ -155,6 +156,16 @@ func (e *env) hashGen(mul, mask uint64) uint64 {
 		h = (h*mul + 300) & mask
 	}
 	return h
+}
+
+func (e *env) detMask() uint64 {
+	var m uint64
+	for i, b := range e.bufs {
+		if b.ab.Detached() {
+			m |= 1 << uint(i)
+		}
+	}
+	return m
 }
 
 // stepHash returns the 32-bit memory hash, or -1 when it did not change since the previous step
@@ -325,7 +336,7 @@ func (e *env) valid(o *Op) bool {
 		return o.V >= 0 && o.V < nv && o.A1 != nil && o.A2 != nil
 	case "fill":
 		return o.V >= 0 && o.V < nv && o.Val != nil
-	case "slice", "subarray", "reverse", "lens":
+	case "slice", "subarray", "reverse", "lens", "sort":
 		return o.V >= 0 && o.V < nv
 	case "dvget":
 		return o.V >= 0 && o.V < nd && o.A1 != nil
@@ -408,12 +419,23 @@ func (e *env) runOp(o *Op) (out stepOut) {
 	case "reverse":
 		src = fmt.Sprintf("V[%d].reverse();undefined", o.V)
 		coqOp = fmt.Sprintf("wReverse %d", o.V)
+	case "sort":
+		src = fmt.Sprintf("V[%d].sort();undefined", o.V)
+		coqOp = fmt.Sprintf("wSort %d", o.V)
 	case "dvget":
-		src = fmt.Sprintf("D[%d].get%s(%s,%v)", o.V, dvName[o.K], jsI(o.A1), o.Le)
-		coqOp = fmt.Sprintf("wDvGet %d %s %s %v", o.V, kindNames[dvKind(o.K)], coqI1(o.A1), o.Le)
+		leJS, leCoq := fmt.Sprintf(",%v", o.Le), fmt.Sprintf("(Some %v)", o.Le)
+		if o.NoLe {
+			leJS, leCoq = "", "None"
+		}
+		src = fmt.Sprintf("D[%d].get%s(%s%s)", o.V, dvName[o.K], jsI(o.A1), leJS)
+		coqOp = fmt.Sprintf("wDvGet %d %s %s %s", o.V, kindNames[dvKind(o.K)], coqI1(o.A1), leCoq)
 	case "dvset":
-		src = fmt.Sprintf("D[%d].set%s(%s,%s,%v);undefined", o.V, dvName[o.K], jsI(o.A1), jsV(*o.Val), o.Le)
-		coqOp = fmt.Sprintf("wDvSet %d %s %s %s %v", o.V, kindNames[dvKind(o.K)], coqI1(o.A1), coqV(*o.Val), o.Le)
+		leJS, leCoq := fmt.Sprintf(",%v", o.Le), fmt.Sprintf("(Some %v)", o.Le)
+		if o.NoLe {
+			leJS, leCoq = "", "None"
+		}
+		src = fmt.Sprintf("D[%d].set%s(%s,%s%s);undefined", o.V, dvName[o.K], jsI(o.A1), jsV(*o.Val), leJS)
+		coqOp = fmt.Sprintf("wDvSet %d %s %s %s %s", o.V, kindNames[dvKind(o.K)], coqI1(o.A1), coqV(*o.Val), leCoq)
 	case "bufslice":
 		src = fmt.Sprintf("var t=B[%d].slice(%s,%s);B.push(t);t.byteLength", o.B, jsI(o.A1), jsI(o.A2))
 		coqOp = fmt.Sprintf("wBufSlice %d %s %s", o.B, coqI(o.A1), coqI(o.A2))
@@ -425,13 +447,13 @@ func (e *env) runOp(o *Op) (out stepOut) {
 	case "gowrite":
 		e.bufs[o.B].mem[o.I] = byte(o.X)
 		out.coqOp = fmt.Sprintf("wGoWrite %d %d %d", o.B, o.I, o.X)
-		out.coqObs = fmt.Sprintf("mkO XUndef %s %s", vh.CoqBool(e.canariesOK()), e.stepHash())
+		out.coqObs = fmt.Sprintf("mkO XUndef %s %s %d", vh.CoqBool(e.canariesOK()), e.stepHash(), e.detMask())
 		out.human = "gowrite"
 		return
 	case "detach":
 		e.bufs[o.B].ab.Detach()
 		out.coqOp = fmt.Sprintf("wDetach %d", o.B)
-		out.coqObs = fmt.Sprintf("mkO XUndef %s %s", vh.CoqBool(e.canariesOK()), e.stepHash())
+		out.coqObs = fmt.Sprintf("mkO XUndef %s %s %d", vh.CoqBool(e.canariesOK()), e.stepHash(), e.detMask())
 		out.human = "detach"
 		return
 	}
@@ -476,7 +498,7 @@ func (e *env) runOp(o *Op) (out stepOut) {
 		// a failed constructor-like op must not leave a half-registered object behind
 		e.rt.RunString(fmt.Sprintf("V.length=%d;D.length=%d;B.length=%d;", len(e.views), len(e.dvs), len(e.bufs)))
 	}
-	out.coqObs = fmt.Sprintf("mkO %s %s %s", res, vh.CoqBool(e.canariesOK()), e.stepHash())
+	out.coqObs = fmt.Sprintf("mkO %s %s %s %d", res, vh.CoqBool(e.canariesOK()), e.stepHash(), e.detMask())
 	return
 }
 
